@@ -40,6 +40,9 @@ struct S {
     v: ScalarValue,
     /// member of the classes for which the property demands a total order
     ordered: bool,
+    /// nested scalars: the wrapped 1-row array is in the plain physical layout
+    /// (no hidden child values, offset 0); always true for non-nested scalars
+    canonical: bool,
 }
 
 fn demo(which: &str) -> bool {
@@ -51,7 +54,10 @@ fn demo(which: &str) -> bool {
 
 fn universe() -> Vec<S> {
     let mut out: Vec<S> = vec![];
-    let mut push = |name: String, v: ScalarValue, ordered: bool| out.push(S { name, v, ordered });
+    let mut push = |name: String, v: ScalarValue, ordered: bool| {
+        let canonical = !name.contains("/v") || name.ends_with("/L0.G0.S0");
+        out.push(S { name, v, ordered, canonical })
+    };
 
     push("Null".into(), ScalarValue::Null, false);
     for (n, v) in [("null", None), ("false", Some(false)), ("true", Some(true))] {
@@ -560,10 +566,11 @@ fn array_cast(arr: &ArrayRef, target: &DataType) -> Result<ArrayRef, String> {
 
 /// Ok(Some(non_null)) when both sides produced a value, Ok(None) when both failed.
 fn law_cast(s: &S, target: &DataType) -> Result<Option<bool>, String> {
-    let scalar_side = s.v.cast_to(target);
+    // a panic on either side counts as that side failing
+    let scalar_side = mc_core::catch(|| s.v.cast_to(target).map_err(|e| e.to_string())).unwrap_or_else(Err);
     for n in [1usize, 3] {
         let arr = s.v.to_array_of_size(n).map_err(|e| format!("{}.to_array_of_size({n}) failed: {e}", s.name))?;
-        let array_side = array_cast(&arr, target);
+        let array_side = mc_core::catch(|| array_cast(&arr, target)).unwrap_or_else(Err);
         match (&scalar_side, &array_side) {
             (Err(_), Err(_)) => {}
             (Ok(v), Err(e)) => {
@@ -589,6 +596,11 @@ fn law_cast(s: &S, target: &DataType) -> Result<Option<bool>, String> {
                     }
                 }
             }
+        }
+    }
+    if let Err(e) = &scalar_side {
+        if e.starts_with("panic") {
+            return Ok(None).map(|x: Option<bool>| x).and_then(|_| Err(format!("PANIC-BOTH:{e}")));
         }
     }
     Ok(scalar_side.ok().map(|v| !v.is_null()))
@@ -621,7 +633,10 @@ fn run_case(u: &[S], c: &Case) -> Result<bool, String> {
         "order" => law_order(&items).map(|n| n > 0),
         "cast" => {
             let t = cast_targets().into_iter().find(|t| Some(format!("{t:?}")) == c.target).ok_or("MACHINERY: unknown target")?;
-            law_cast(items[0], &t).map(|r| r == Some(true))
+            match law_cast(items[0], &t) {
+                Err(e) if e.starts_with("PANIC-BOTH:") => Ok(false),
+                r => r.map(|r| r == Some(true)),
+            }
         }
         o => Err(format!("MACHINERY: unknown law {o}")),
     }
@@ -658,6 +673,11 @@ fn explore(ctx: &Ctx) {
     ctx.assume("a NULL union scalar (Union(None,..)) may read back as a NULL of one of its fields: union arrays have no validity of their own");
     ctx.assume("array-side cast = Arrow cast kernel with DataFusion's DEFAULT_CAST_OPTIONS, plus the engine's rules for arrays (name-based struct cast; date/timestamp -> finer timestamp overflow is an error)");
 
+    // Failures are collected and reported once per class (law, scalar variant[, cast target kind]):
+    // the member with the smallest universe position is the reported (replayable) case.
+    let failures: std::sync::Mutex<Vec<(String, Vec<usize>, Case, String)>> = std::sync::Mutex::new(vec![]);
+    let kind = |n: &str| -> String { n.split(|c| "<([/".contains(c)).next().unwrap_or("").to_string() };
+    let pos = |n: &String| u.iter().position(|s| s.name == *n).unwrap_or(usize::MAX);
     let report = |c: Case, r: Result<bool, String>, sample_ok: bool| {
         ctx.eval();
         match r {
@@ -673,7 +693,14 @@ fn explore(ctx: &Ctx) {
                 if what.starts_with("MACHINERY") {
                     ctx.machinery_error(what);
                 } else {
-                    ctx.violation(serde_json::to_string(&c).unwrap(), what, serde_json::to_value(&c).unwrap());
+                    let class = format!(
+                        "{}/{}{}",
+                        c.law,
+                        kind(&c.scalars[0]),
+                        c.target.as_ref().map(|t| format!("->{}", kind(t))).unwrap_or_default()
+                    );
+                    let order: Vec<usize> = c.scalars.iter().map(pos).collect();
+                    failures.lock().unwrap().push((class, order, c, what));
                 }
             }
         }
@@ -691,7 +718,7 @@ fn explore(ctx: &Ctx) {
     group_list.par_iter().for_each(|idx| {
         for &a in idx.iter() {
             for &b in idx.iter() {
-                if ctx.should_stop() {
+                if ctx.out_of_time() {
                     return;
                 }
                 let items = [&u[a], &u[b]];
@@ -734,14 +761,23 @@ fn explore(ctx: &Ctx) {
         ctx.count("ordered_groups", 1);
         report(c, r.map(|n| n > 0), items.len() <= 5);
     });
-    // 5. cast
-    u.par_iter().for_each(|s| {
+    // 5. cast (nested scalars only in their plain physical layout: Arrow's cast kernel also
+    // casts child values that no row references, which is not a property of the scalar)
+    u.par_iter().filter(|s| s.canonical).for_each(|s| {
         for t in &targets {
-            if ctx.should_stop() {
+            if ctx.out_of_time() {
                 return;
             }
             let c = Case { law: "cast".into(), scalars: vec![s.name.clone()], target: Some(format!("{t:?}")) };
-            let r = mc_core::catch(|| law_cast(s, t)).unwrap_or_else(Err);
+            let mut r = mc_core::catch(|| law_cast(s, t)).unwrap_or_else(Err);
+            if let Err(e) = &r {
+                if e.starts_with("PANIC-BOTH:") {
+                    // scalar cast and array cast both panic (same failure); recorded, not a violation of this law
+                    ctx.count("casts_both_panic", 1);
+                    ctx.set_extra("cast_panic_example", json!(format!("{} -> {t}: {}", s.name, &e[11..])));
+                    r = Ok(None);
+                }
+            }
             match &r {
                 Ok(Some(_)) => ctx.count("casts_both_succeed", 1),
                 Ok(None) => ctx.count("casts_both_fail", 1),
@@ -750,6 +786,17 @@ fn explore(ctx: &Ctx) {
             report(c, r.map(|x| x == Some(true)), false);
         }
     });
+    // one violation per failure class
+    let mut fs = failures.into_inner().unwrap();
+    fs.sort_by(|a, b| (&a.0, a.1.len(), &a.1).cmp(&(&b.0, b.1.len(), &b.1)));
+    let mut last: Option<String> = None;
+    for (class, _, c, what) in fs {
+        ctx.count(&format!("failing_cases[{class}]"), 1);
+        if last.as_ref() != Some(&class) {
+            ctx.violation(serde_json::to_string(&c).unwrap(), what, serde_json::to_value(&c).unwrap());
+            last = Some(class);
+        }
+    }
 }
 
 fn replay(v: &Value) -> Result<(), String> {
